@@ -18,9 +18,9 @@ func init() {
 				"(create) CreateSwapPool registers the pool token with volume = the liquidity PairCreate returned (copied before it is reduced), credits liquidity − Bound to the sender and exactly swap.Bound to the zero address (which no transaction can debit: C05.debitor), and debits the sender the amounts PairCreate returned in the pool's own coins; " +
 				"(mint) AddLiquidity passes the pool token's current Volume() of the pool (coin0, coin1) as totalSupply to PairMint, adds the returned liquidity to the token's volume and credits the same value to the sender, and debits the returned amounts in the pool's coins; " +
 				"(burn) RemoveLiquidity passes the token's Volume() as totalSupply to PairBurn with data.Liquidity, burns exactly data.Liquidity from the token's volume and from the sender's balance, and credits the returned amounts in the pool's coins to the sender; " +
-				"(token) in all three the token is the one named LiquidityCoinSymbol(<id of the pool (data.Coin0, data.Coin1)>).",
+				"(key) every access of the live pool table uses the normalised (sorted) coin pair, so a pool cannot be missed or created twice when the coins arrive in the other order; (token) in all three the token is the one named LiquidityCoinSymbol(<id of the pool (data.Coin0, data.Coin1)>).",
 			Assumptions: stdAssumptions,
-			Rules:       []string{"C13.create", "C13.mint", "C13.burn"},
+			Rules:       []string{"C13.create", "C13.mint", "C13.burn", "C13.key"},
 		},
 		Run: runC13,
 	})
@@ -60,6 +60,7 @@ func runC13(c *core.Ctx) {
 	c.Floor("C13.create", c.Count("C13.create"), 5, "pool-creation obligations")
 	c.Floor("C13.mint", c.Count("C13.mint"), 5, "add-liquidity obligations")
 	c.Floor("C13.burn", c.Count("C13.burn"), 5, "remove-liquidity obligations")
+	checkPairKeys(c, "C13.key")
 }
 
 func checkPoolCreate(c *core.Ctx, m *RunModel) {
@@ -258,4 +259,108 @@ func checkPoolBurn(c *core.Ctx, m *RunModel) {
 	}
 	c.Check(c0 && c1, rule, name+"/withdrawals-credited", pb.Pos(), "the sender is credited PairBurn's amount0 in Coin0 and amount1 in Coin1", fmt.Sprintf("withdrawn amounts are not credited as (Coin0, amount0)=%v and (Coin1, amount1)=%v", c0, c1))
 	_ = token.NoPos
+}
+
+// checkPairKeys — the pool table of the live swap module is keyed by the SORTED coin pair; a pool
+// looked up or stored under the pair as the caller happened to order it is invisible to the other
+// order (two CreateSwapPool(A,B) / (B,A) in one block would both pass SwapPoolExist and the second
+// would re-create the pool with a fresh LP token, orphaning the first provider's share and the
+// locked minimum liquidity). Every lookup / insert on SwapV2.pairs must use a key that is
+// PairKey.sort()'s result, or the key itself where isSorted() holds / its reverse() where it does
+// not, or a key taken from the table (range) or from the dirty sets that are filled with sorted keys.
+func checkPairKeys(c *core.Ctx, rule string) {
+	t := c.Named(pkgSwap, "SwapV2")
+	if t == nil {
+		c.Unk(rule, "SwapV2", token.NoPos, "type not found")
+		return
+	}
+	n := 0
+	for _, a := range mapFieldAccesses(c, t, "pairs") {
+		var key ssa.Value
+		switch x := a.Instr.(type) {
+		case *ssa.Lookup:
+			key = x.Index
+		case *ssa.MapUpdate:
+			key = x.Key
+		case *ssa.Call:
+			if len(x.Call.Args) == 2 {
+				key = x.Call.Args[1] // delete(m, k)
+			}
+		}
+		if key == nil {
+			continue
+		}
+		n++
+		good := true
+		var descr []string
+		for _, o := range core.Origins(key) {
+			d, ok := normalisedKey(c, o, a.Instr)
+			descr = append(descr, d)
+			if !ok {
+				good = false
+			}
+		}
+		k := fmt.Sprintf("%s/%s", core.ShortFn(a.Fn), a.Kind)
+		c.Check(good && len(descr) > 0, rule, k, a.Instr.Pos(), "pool table accessed under a normalised key: "+strings.Join(descr, " | "),
+			"SwapV2.pairs is accessed under a key that is not normalised ("+strings.Join(descr, " | ")+"): the table is keyed by the sorted pair, so the pool is missed (or duplicated) when the coins arrive in the other order")
+	}
+	c.Floor(rule, n, 3, "accesses of SwapV2.pairs by key")
+}
+
+func normalisedKey(c *core.Ctx, o ssa.Value, at ssa.Instruction) (string, bool) {
+	switch x := o.(type) {
+	case *ssa.Call:
+		switch methodNameOfCall(x) {
+		case "sort":
+			return "key.sort()", true
+		case "reverse":
+			// only where the un-reversed key is known not to be sorted
+			for _, f := range c.FactsAt(x, 0) {
+				if cf, ok := f.AsCall(); ok && cf.MethodName() == "isSorted" && !f.Truth {
+					return "key.reverse() under !isSorted()", true
+				}
+			}
+			return "key.reverse() without an isSorted() test", false
+		}
+		return "result of " + core.CalleeName(&x.Call), false
+	case *ssa.Extract:
+		if nx, ok := x.Tuple.(*ssa.Next); ok {
+			if rg, ok := nx.Iter.(*ssa.Range); ok {
+				return "key ranged from " + core.Path(rg.X), true
+			}
+		}
+	case *ssa.Parameter:
+		// the parameter itself is accepted where isSorted() holds on it on the way to the access
+		for _, f := range c.FactsAt(at, 0) {
+			if cf, ok := f.AsCall(); ok && cf.MethodName() == "isSorted" && f.Truth {
+				return "parameter " + x.Name() + " under isSorted()", true
+			}
+		}
+		// addPair idiom: `if !key.isSorted() { key = key.reverse() }` — the parameter flows on the
+		// edge where the test said sorted, its reverse on the other
+		for _, s := range core.Sites(at.Parent()) {
+			if methodName(s) != "isSorted" || s.Recv() == nil {
+				continue
+			}
+			isOnParam := false
+			for _, oo := range core.Origins(s.Recv()) {
+				if oo == ssa.Value(x) {
+					isOnParam = true
+				}
+				// pointer-receiver call on the cell the parameter was spilled to
+				if al, ok := oo.(*ssa.Alloc); ok {
+					for _, r := range *al.Referrers() {
+						if st, ok := r.(*ssa.Store); ok && st.Addr == al && core.Unwrap(st.Val) == ssa.Value(x) {
+							isOnParam = true
+						}
+					}
+				}
+			}
+			if isOnParam && core.Dominates(s.Instr, at) {
+				return "parameter " + x.Name() + " (sorted arm of an isSorted() test)", true
+			}
+		}
+		return "parameter " + x.Name() + " as given by the caller", false
+	}
+	return describe(o), false
 }
